@@ -1,4 +1,5 @@
 import PolyVerif.Lemmas.PolyJson
+import PolyVerif.Lemmas.JsonText
 /-
 Property C15 — JSON is a lossless interchange form for annotated sequences.
 
@@ -144,6 +145,47 @@ theorem roundtrip_spec (x : Sequence) (h : x.WF = true) :
     Spec.Lossless.sameSlice, Option.getD_some]
   exact sameList_map_left _ _ _ (fun f hf => sameFeature_relink _ f (h.2 f hf))
 
+/-! ## the JSON text layer (Lean printer / reader; reusable by any property that prints `JVal`s) -/
+
+/-- A string body as the printer writes it (`\"` `\\` `\b` `\f` `\n` `\r` `\t`, `\u00XX` for other control characters,
+`\u003c` `\u003e` `\u0026` for `<` `>` `&`, `\u2028`, `\u2029` — the escapes `encoding/json` emits — everything else
+verbatim), closed by `"`, is read back to the same code points, whatever follows. Every code point list. -/
+theorem json_string_roundtrip (s rest : S) :
+    JsonRead.readStr (escJson s ++ 34 :: rest) [] none = some (s, rest) :=
+  JsonText.readStr_quote s rest
+
+/-- An integer of either sign as the printer writes it (no `+`, no leading zeros) is read back, provided the text that
+follows does not continue the number (digit, `.`, `e`, `E`). -/
+theorem json_int_roundtrip (n : Int) (rest : S) (h : JsonText.NumEnd rest) :
+    JsonRead.readNum (intDigits n ++ rest) = some (.num n, rest) :=
+  JsonText.readNum_int n rest h
+
+/-- THE TEXT ROUND TRIP, every JSON value: strings over arbitrary code points, integers, null / true / false, arrays,
+objects with their members in order, nested to any depth: the reader reads back exactly what the printer wrote. -/
+theorem json_text_roundtrip (v : JVal) : JsonRead.parse v.print = some v :=
+  JsonText.parse_print v
+
+/-- Clause 1 at the level of TEXT: parsing the text written for `x` gives `x` (feature list non-nil, every feature linked
+to the result) — `polyjson.Parse(json.Marshal(x))` with the Lean printer and reader in the place of `encoding/json`'s. -/
+theorem text_roundtrip_exact (x : Sequence) (h : x.WF = true) :
+    parseText (writeText x)
+      = some { x with features := some ((x.features.getD []).map (relinkTo x.sequence)) } := by
+  simp only [parseText, writeText, json_text_roundtrip, Option.map_some, parse_marshal x h]
+
+/-- … hence an equal value (`≈`) … -/
+theorem text_roundtrip (x : Sequence) (h : x.WF = true) :
+    ∃ y, parseText (writeText x) = some y ∧ y.Equiv x :=
+  ⟨_, by simp only [parseText, writeText, json_text_roundtrip, Option.map_some], roundtrip x h⟩
+
+/-- … and `x` itself for a sequence built with `AddFeature`. -/
+theorem text_roundtrip_self (x : Sequence) (h : x.WF = true) (hl : x.Linked) (hn : x.features ≠ none) :
+    parseText (writeText x) = some x := by
+  simp only [parseText, writeText, json_text_roundtrip, Option.map_some, roundtrip_exact x h hl hn]
+
+/-- plain `json.Unmarshal` of the written text: `x` with nil parent pointers -/
+theorem text_unmarshal (x : Sequence) (h : x.WF = true) : unmarshalText (writeText x) = some x.unlink := by
+  simp only [unmarshalText, writeText, json_text_roundtrip, Option.map_some, unmarshal_marshal x h]
+
 /-! ## re-linking -/
 
 /-- Clause 2a: every feature of the parsed value points to the parsed value's own sequence text. -/
@@ -277,6 +319,11 @@ example : sample.toGbk.features.map (fun f => (f.attributes.length, f.sequenceLo
     ∧ sample.toGbk.sequence = "ACGTTGCATG".toList ∧ sample.toGbk.metadata.other.length = 2 := by decide
 example : sample.toGff.features.map (fun f => (f.start, f.stop, f.attrs.length)) = [(0, 9, 2), (1, 4, 0)]
     ∧ sample.toGff.name = "pX".toList := by decide
+/-- the printer's escapes on a string with `"`, newline, `<`, U+2028, a supplementary-plane character and U+0001 -/
+example : (JVal.str [34, 10, 60, 0x2028, 0x1F9EC, 1]).print
+    = ofStr "\"\\\"\\n\\u003c\\u2028" ++ [0x1F9EC] ++ ofStr "\\u0001\"" := by decide
+example : (JVal.arr [.num (-120), .obj [([97], .null), ([98], .bool true)], .arr []]).print
+    = ofStr "[-120,{\"a\":null,\"b\":true},[]]" := by decide
 /-- a writer that satisfies `convert_same`'s hypothesis without being constant -/
 example : ∀ a c : Sequence, a.Equiv c →
     (a.features.getD []).map (·.type) = (c.features.getD []).map (·.type) := by
